@@ -128,7 +128,7 @@ def o6_1_sequence_publication(mir, tier):
         for label, post in posts:
             ex.record_formula(label, pc, Not(post))
             m = ex.model(Not(post))
-            if m is not None: res.violations.append({'label': label, 'events': names, 'replay': None, 'confirmed_by': {'reproduced': False, 'detail': 'needs a two-thread schedule; not replayed'}})
+            if m is not None: res.violations.append({'label': label, 'events': names, 'replay': ['sched_batch_visibility', 'snapshot']})
         res.cases[','.join(names)[:150]] = 1
     ex, fn = apply_changes_run(mir, tier, on_path)
     res.absorb(ex)
@@ -172,6 +172,9 @@ def lock_summaries(mir):
         def f(se, env, pc, *a):
             add(env, ('read', what)); return [(None, ret() if callable(ret) else ret, env['$state'])]
         return f
+    def seek_key(se, env, pc, key, seq):
+        add(env, ('lookup sequence', seq)); return [(None, Opaque('lookup key'), env['$state'])]
+    P[r'InternalKey::new_for_seeking'] = seek_key
     P[r'DB::memtable'] = reader('memtable', lambda: Opaque('memtable'))
     P[r'VersionSet::get_current_version'] = reader('current version', lambda: Opaque('version'))
     P[r'VersionSet::get_prev_sequence_number'] = reader('last published sequence', lambda: BitVec('prev_seq', 64))
@@ -225,6 +228,13 @@ def o5_1_reads_under_mutex(mir, tier):
                     seen.add(label)
                     res.violations.append({'label': label, 'events': [' '.join(x) for x in evs[:i + 1]], 'replay': ['sched_get_race'] if name == 'get' and e[1] == 'memtable' else None,
                                            'confirmed_by': None if name == 'get' and e[1] == 'memtable' else {'reproduced': False, 'detail': 'no native schedule for this read'}})
+            for e in evs:
+                if e[0] == 'lookup sequence' and name == 'get':
+                    ok = is_bv(e[1]) and str(e[1]) == 'prev_seq'
+                    if not ok:
+                        label = 'DB::get without a snapshot does not look up at the last published sequence number'
+                        if label not in seen:
+                            seen.add(label); res.violations.append({'label': label, 'events': [str(x[0]) for x in evs], 'sequence_used': str(e[1]), 'replay': ['sched_batch_visibility', 'plain']})
             reads = sorted(set(e[1] for e in evs if e[0] == 'read'))
             res.cases['%s reads %s' % (name, reads)] = res.cases.get('%s reads %s' % (name, reads), 0) + 1
         ex, fn = run_db_method(mir, name, args, on_path)
@@ -244,6 +254,7 @@ def o5_1_reads_under_mutex(mir, tier):
 
 def o5_1_confirm(v, out):
     if out.get('_rc') != 0: return (False, 'native run failed: %s' % out.get('_stderr', '')[-300:])
+    if v['replay'][0] == 'sched_batch_visibility': return o6_1_confirm(v, out)
     return (out.get('race_get') == 'notfound' and out.get('later_get') == 'v',
             'forced schedule (memtable rotated and flushed while get is in its unlocked section): get returned %s, the same get afterwards %s' % (out.get('race_get'), out.get('later_get')))
 
@@ -289,3 +300,9 @@ def o9_1_no_self_deadlock(mir, tier):
 
 def o9_1_confirm(v, out):
     return (bool(out.get('_timeout')), 'native call did not return within the watchdog time (deadlock)' if out.get('_timeout') else 'native call returned: %s' % {k: x for k, x in out.items() if not k.startswith('_')})
+
+
+def o6_1_confirm(v, out):
+    """Native: a reader (snapshot + two gets) runs to completion while a two-key batch is half way into the memtable."""
+    if out.get('_rc') != 0: return (False, 'native run failed: %s' % out.get('_stderr', '')[-300:])
+    return (out.get('partial') == 'true', 'reader paused inside the batch insert observed (k1,k2) = (%s); before the batch (a,a), after it (b,b)' % out.get('observed'))
